@@ -421,6 +421,13 @@ class Flow(object):
                 outs = [outs]
             if use_facts and node.ast is not None and node.kind in ('stmt', 'with_enter', 'for_iter', 'return', 'handler'):
                 facts2 = facts.kill(_killed_by(node.ast if node.kind != 'handler' else None))
+                # constant propagation of boolean flags: `flag = True` / `flag = False` is a fact about `flag`
+                a = node.ast
+                if node.kind == 'stmt' and isinstance(a, ast.Assign) and len(a.targets) == 1 and isinstance(a.targets[0], ast.Name) \
+                        and isinstance(a.value, ast.Constant) and isinstance(a.value.value, bool):
+                    f_ = facts2.assume(a.targets[0], a.value.value)
+                    if f_ is not None:
+                        facts2 = f_
             else:
                 facts2 = facts
             for c in outs:
